@@ -31,7 +31,7 @@ UNPROVED = ["normwise backward error of the returned values in f64 (tie + search
             "that libm's sqrt/pow return square/cube roots (hypotheses of quadratic_factors / cubic_factors; in the tie they are recorded values)"]
 
 MANIFEST = dict(
-    text=("Proved in Coq (21 theorems; closed under the global context except float_roots_memory_safe, which mentions Coq's primitive-float constants) for the executable model coq/Model/Roots.v -- ONE definition, "
+    text=("Proved in Coq (%d theorems;" % ntheorems("C10") + " closed under the global context except float_roots_memory_safe, which mentions Coq's primitive-float constants) for the executable model coq/Model/Roots.v -- ONE definition, "
           "instantiated at an abstract field for the closed forms and at IEEE binary64 + the recorded libm calls for the tie. "
           "For every arithmetic (floats included): poly_solve returns exactly n values for degree n >= 1 and rejects degree 0 "
           "(roots_length, degree0_rejected); laguer makes at most MAXIT-1 passes, MAXIT regenerated from the source, and an Exhausted exit "
